@@ -193,6 +193,13 @@ fn contain_page<S: PageSize>(rep: &mut Report, x: u64, tag: &str) {
             }
         }
     }
+    // the unchecked twin, called only where its precondition (an aligned address) holds
+    if x % S::SIZE == 0 {
+        let p = unsafe { Page::<S>::from_start_address_unchecked(v) };
+        if p.start_address().as_u64() != x || p != pg {
+            rep.violation(&format!("Page<{}>::from_start_address_unchecked|differs-from-checked", tag), ctx());
+        }
+    }
     rep.class(&format!("page{}|{}|aligned={}", tag, gen::half(x), x % S::SIZE == 0));
 }
 
@@ -220,6 +227,12 @@ fn contain_frame<S: PageSize>(rep: &mut Report, x: u64, tag: &str) {
             if x % S::SIZE == 0 {
                 rep.violation(&format!("PhysFrame<{}>::from_start_address|rejected-aligned", tag), ctx());
             }
+        }
+    }
+    if x % S::SIZE == 0 {
+        let p = unsafe { PhysFrame::<S>::from_start_address_unchecked(v) };
+        if p.start_address().as_u64() != x || p != pg {
+            rep.violation(&format!("PhysFrame<{}>::from_start_address_unchecked|differs-from-checked", tag), ctx());
         }
     }
     rep.class(&format!("frame{}|aligned={}", tag, x % S::SIZE == 0));
